@@ -145,7 +145,7 @@ func vpC01Degenerate(codec int) {
 			vpReach("end")
 			return
 		}
-		vpSetField(x, f, 5, 'a')
+		vpSetField(x, f, 5+vpChoice(4), 'a')
 	case "Item":
 		vpSetField(x, f, 11+vpChoice(3), 'a')
 	default:
@@ -267,6 +267,60 @@ func vpH_C01_every_name() {
 		}
 	}
 	vpDiffItems("every-name/roundtrip/"+cell, want, y, nil)
+	vpReach("end")
+}
+
+// items held by value (Place{...} rather than &Place{...}) in a single-item property and in a list:
+// they are written like their pointer forms and come back as those
+func vpH_C01_value_forms() {
+	ti := vpChoice(3) // Object, Actor, Activity as the holder
+	vi := vpChoice(len(vpTypeNames))
+	inner := vpNew(vi)
+	vpSetField(inner, 0, 0, 'j')
+	if vi != vpTypeIndex("Link") {
+		vpSetField(inner, vpFieldIndex(vi, "Name"), 0, 'n')
+	}
+	val := vpValueOf(inner)
+	x := vpNew(ti)
+	vpSetField(x, 0, 0, 'i')
+	inList := vpBool()
+	_ = OnObject(x, func(o *Object) error {
+		if inList {
+			o.Tag = ItemCollection{IRI("https://h.ex/first"), val}
+		} else {
+			o.Location = val
+		}
+		return nil
+	})
+	cell := vpTypeNames[vi]
+	if inList {
+		cell += "/in-list"
+	}
+	b, err := vpMarshalItem(x)
+	vpAssert("value-form/encode/"+cell, err == nil && len(b) > 0)
+	if len(b) == 0 {
+		return
+	}
+	y, err := UnmarshalJSON(b)
+	vpAssert("value-form/decode/"+cell, err == nil && y != nil)
+	if y == nil {
+		return
+	}
+	var got Item
+	_ = OnObject(y, func(o *Object) error {
+		if inList {
+			if len(o.Tag) == 2 {
+				got = o.Tag[1]
+			}
+		} else {
+			got = o.Location
+		}
+		return nil
+	})
+	vpAssert("value-form/present/"+cell, got != nil)
+	if got != nil {
+		vpAssert("value-form/same-as-pointer-form/"+cell, vpEqItem(got, inner))
+	}
 	vpReach("end")
 }
 
